@@ -19,7 +19,7 @@ var fsCreators = map[string]int{"os.OpenFile": 0, "os.Create": 0, "os.WriteFile"
 
 func checkC19(r *Run) propMeta {
 	meta := propMeta{Level: "other",
-		Explanation: "Decides the ordering and pairing clauses that make an interrupted dump resumable or refused: (R1) publish-by-rename — every file created on a path reachable from Dump is created under a name ending in \".tmp\" and reaches its final name only as the destination of os.Rename; (R2) in each publishing function the rename is preceded by error-gated Close of compressor and file, and every failing branch after the temp file exists removes it; (R3) record-after-publish with rollback — a fragment is appended to the checkpoint only after closeFragmentWriter published it, a failed checkpoint write removes the published fragment and restores the in-memory checkpoint; in the record visitor the resume cursor is advanced to the written record's ID after the write and before any flush it triggers; (R4) manifest last — writeManifest is called only in Dump, after the loop over all targets, and is followed by removeDumpCheckpoint; (R5) resume gate — loadCompatibleDumpCheckpoint returns success only after the manifest-absent check, identity equality, validateDumpCheckpoint, removeKnownDumpCheckpointTemps and validateDumpCheckpointFiles each passed, and Dump resumes only through it; (R6) every DumpOptions field is covered by the checkpoint identity or listed as output-neutral, and no field of a struct copy is read after the same function overwrote it with a constant (a digest of a blanked option is the same for every option value). NOT decided: the outcome at each individual crash point (fault enumeration), database snapshot changes between runs, fsync durability (no sync call exists; stated as an assumption).",
+		Explanation: "Decides the ordering and pairing clauses that make an interrupted dump resumable or refused: (R1) publish-by-rename — every file created on a path reachable from Dump is created under a name ending in \".tmp\" and reaches its final name only as the destination of os.Rename; (R2) in each publishing function the rename is preceded by error-gated Close of compressor and file, and every failing branch after the temp file exists removes it; (R3) record-after-publish with rollback — a fragment is appended to the checkpoint only after closeFragmentWriter published it, a failed checkpoint write removes the published fragment and restores the in-memory checkpoint; in the record visitor the resume cursor is advanced to the written record's ID after the write and before any flush it triggers; in Dump's loop nothing changes the checkpoint after the iteration's last writeDumpCheckpoint; (R4) manifest last — writeManifest is called only in Dump, after the loop over all targets, and is followed by removeDumpCheckpoint; (R5) resume gate — loadCompatibleDumpCheckpoint returns success only after the manifest-absent check, identity equality, validateDumpCheckpoint, removeKnownDumpCheckpointTemps and validateDumpCheckpointFiles each passed, and Dump resumes only through it; (R6) every DumpOptions field is covered by the checkpoint identity or listed as output-neutral, and no field of a struct copy is read after the same function overwrote it with a constant (a digest of a blanked option is the same for every option value). NOT decided: the outcome at each individual crash point (fault enumeration), database snapshot changes between runs, fsync durability (no sync call exists; stated as an assumption).",
 		Assumptions: []string{"os.Rename is atomic with respect to process crash", "no fsync is issued: durability across power loss is outside the property as checked"},
 		TrustedBase: []string{"go/types", "this analyser"}}
 	if err := r.Load("./retriever/..."); err != nil {
@@ -91,6 +91,7 @@ func checkC19(r *Run) propMeta {
 		checkFlushClosure(r, p, fd)
 		checkCursorBeforeCommit(r, p, fd)
 	}
+	checkPersistLast(r, p, decls)
 	if dg := decls["dumpGraph"]; dg != nil {
 		checkCommitCallbacks(r, p, dg)
 	} else {
@@ -848,5 +849,118 @@ func checkBlankedFieldReads(r *Run, p *packages.Package, decls map[string]*ast.F
 			}
 			return true
 		})
+	}
+}
+
+// checkPersistLast (R3, totals clause): within one iteration of Dump's loop over the targets, the in-memory checkpoint
+// is written to disk by writeDumpCheckpoint.  Whatever is changed in the checkpoint after the last such write of the
+// iteration exists only in memory until the next write; an interruption in that window (the next graph's count query
+// fails, or a crash before the manifest rename) resumes from a checkpoint that lists the graph as complete but lacks
+// that change, and the resumed manifest's totals differ from an uninterrupted dump's.
+func checkPersistLast(r *Run, p *packages.Package, decls map[string]*ast.FuncDecl) {
+	info := p.TypesInfo
+	fd := decls["Dump"]
+	if fd == nil || fd.Body == nil {
+		r.Undecide("C19-R3: Dump not found")
+		return
+	}
+	type loopStmt struct{ Body *ast.BlockStmt }
+	var loop *loopStmt
+	ast.Inspect(fd.Body, func(n ast.Node) bool {
+		var body *ast.BlockStmt
+		switch x := n.(type) {
+		case *ast.RangeStmt:
+			body = x.Body
+		case *ast.ForStmt:
+			body = x.Body
+		}
+		if body != nil && loop == nil {
+			if stmtHasCall(body, func(c *ast.CallExpr) bool {
+				f := calleeOf(info, c)
+				return f != nil && f.Name() == "writeDumpCheckpoint"
+			}) {
+				loop = &loopStmt{body}
+			}
+		}
+		return true
+	})
+	if loop == nil {
+		r.Undecide("C19-R3: Dump has no loop that writes the checkpoint")
+		return
+	}
+	// the checkpoint variable: first argument position 1 of writeDumpCheckpoint
+	var cp types.Object
+	last := -1
+	for i, st := range loop.Body.List {
+		ast.Inspect(st, func(n ast.Node) bool {
+			if c, ok := n.(*ast.CallExpr); ok {
+				if f := calleeOf(info, c); f != nil && f.Name() == "writeDumpCheckpoint" && len(c.Args) >= 2 {
+					last = i
+					if id, ok := ast.Unparen(c.Args[1]).(*ast.Ident); ok {
+						cp = info.Uses[id]
+					}
+				}
+			}
+			return true
+		})
+	}
+	if cp == nil || last < 0 {
+		r.Undecide("C19-R3: writeDumpCheckpoint(dir, checkpoint) not found at the top level of Dump's loop")
+		return
+	}
+	rooted := func(e ast.Expr) bool {
+		for {
+			switch x := ast.Unparen(e).(type) {
+			case *ast.SelectorExpr:
+				e = x.X
+			case *ast.IndexExpr:
+				e = x.X
+			case *ast.StarExpr:
+				e = x.X
+			case *ast.UnaryExpr:
+				e = x.X
+			case *ast.Ident:
+				return info.Uses[x] == cp
+			default:
+				return false
+			}
+		}
+	}
+	bad := token.NoPos
+	what := ""
+	for _, st := range loop.Body.List[last+1:] {
+		ast.Inspect(st, func(n ast.Node) bool {
+			if bad != token.NoPos {
+				return false
+			}
+			switch x := n.(type) {
+			case *ast.AssignStmt:
+				for _, l := range x.Lhs {
+					if _, isID := ast.Unparen(l).(*ast.Ident); !isID && rooted(l) {
+						bad, what = x.Pos(), exprString(r.Fset, l)+" is assigned"
+					}
+				}
+			case *ast.CallExpr:
+				f := calleeOf(info, x)
+				if f == nil || f.Pkg() != p.Types {
+					return true
+				}
+				for _, a := range x.Args {
+					if !rooted(a) {
+						continue
+					}
+					switch info.TypeOf(a).Underlying().(type) {
+					case *types.Map, *types.Pointer, *types.Slice:
+						bad, what = x.Pos(), exprString(r.Fset, a)+" is handed to "+f.Name()
+					}
+				}
+			}
+			return true
+		})
+	}
+	if bad != token.NoPos {
+		r.Fail("C19-R3-record-after-publish", "Dump:persist-last", bad, "after the iteration's last writeDumpCheckpoint, %s: the change is in memory only until the next checkpoint or manifest write, so a resume after an interruption in between publishes a manifest whose totals miss this graph's contribution", what)
+	} else {
+		r.Pass("C19-R3-record-after-publish", "Dump:persist-last", loop.Body.List[last].Pos(), "nothing changes the checkpoint after the iteration's last writeDumpCheckpoint")
 	}
 }
